@@ -657,6 +657,16 @@ func execAggQueries(d *xdb, r *hx.Rng, t1, t2 xtable, nullable bool) {
 		}
 	}
 	d.query("SELECT t2.k, count(*) FROM t1 JOIN t2 ON t1.k = t2.k GROUP BY k", "exact", "agg")
+	// the same column name on both sides of a join, selected and grouped by qualifier
+	d.query("SELECT t1.a, t2.a, count(*) FROM t1 JOIN t2 ON t1.k = t2.k GROUP BY t1.a, t2.a", "exact", "agg-qualified")
+	d.query("SELECT x.k, y.a, count(*), count(y.b) FROM t1 x JOIN t1 y ON x.k = y.k GROUP BY x.k, y.a", "exact", "agg-qualified")
+	d.query("SELECT t2.a, t1.a, count(*) FROM t1 LEFT JOIN t2 ON t1.k = t2.k GROUP BY t2.a, t1.a", "exact", "agg-qualified")
+	// aggregates are computed over all rows that pass WHERE; LIMIT / OFFSET apply to the groups
+	for _, tail := range []string{" LIMIT 1", " LIMIT 2", " LIMIT 1 OFFSET 1", " OFFSET 1", " LIMIT 3 OFFSET 2"} {
+		d.query("SELECT count(*), count(b) FROM t1"+tail, "exact", "agg-limit")
+		d.query("SELECT k, count(*), count(b) FROM t1 GROUP BY k"+tail, "exact", "agg-limit")
+		d.query("SELECT k, count(*) FROM t1 WHERE id > 1 GROUP BY k"+tail, "exact", "agg-limit")
+	}
 	if !nullable {
 		d.query("SELECT t1.k, t2.a, avg(t1.a), count(*) FROM t1 JOIN t2 ON t1.k = t2.k WHERE t1.id > 1 GROUP BY t1.k, a", "exact", "agg")
 	}
